@@ -13,6 +13,20 @@ from astropy.io import fits
 C_UM_HZ = 299792458.0e6  # c in micron * Hz
 
 
+def finish(path, gz):
+    """`path` (a plain FITS file just written) is gzip-compressed to path + '.gz' when gz is set (the documented layouts
+    allow .fits.gz for SED files, convolved fluxes and the parameter table); a stale twin of the other kind is removed."""
+    import gzip
+    if gz:
+        with open(path, 'rb') as f:
+            raw = f.read()
+        with gzip.GzipFile(path + '.gz', 'wb', mtime=0) as g:
+            g.write(raw)
+        os.remove(path)
+    elif os.path.exists(path + '.gz'):
+        os.remove(path + '.gz')
+
+
 def wav_to_nu(wav_um):
     return [C_UM_HZ / w for w in wav_um]
 
@@ -28,7 +42,7 @@ def write_conf(model_dir, aperture_dependent, logd_step=0.02, version=None, name
             f.write('version = %d\n' % version)
 
 
-def write_parameters(model_dir, names, params, order=None, width=30, filename='parameters.fits', fmt='D'):
+def write_parameters(model_dir, names, params, order=None, width=30, filename='parameters.fits', fmt='D', gz=False):
     """params: {column: [value per model]} in the order of `names`; `order` permutes the rows."""
     idx = list(range(len(names))) if order is None else list(order)
     cols = [fits.Column(name='MODEL_NAME', format='%dA' % width, array=np.array([names[i] for i in idx], dtype='S%d' % width))]
@@ -39,10 +53,11 @@ def write_parameters(model_dir, names, params, order=None, width=30, filename='p
     hdu0.header['NMODELS'] = len(names)
     hdu1 = fits.BinTableHDU.from_columns(cols)
     fits.HDUList([hdu0, hdu1]).writeto(os.path.join(model_dir, filename), overwrite=True)
+    finish(os.path.join(model_dir, filename), gz)
 
 
 def write_convolved(model_dir, filt, names, wav_um, apertures_au, flux, err, dtype='D', unit='mJy',
-                    with_aperture_hdu=True, width=30):
+                    with_aperture_hdu=True, width=30, gz=False):
     """flux/err: [model][aperture] in `unit`.  apertures_au None -> single column, no APERTURES HDU."""
     d = os.path.join(model_dir, 'convolved')
     if not os.path.isdir(d):
@@ -73,6 +88,7 @@ def write_convolved(model_dir, filt, names, wav_um, apertures_au, flux, err, dty
             name='APERTURES')
         hdus.append(hdu2)
     fits.HDUList(hdus).writeto(os.path.join(d, filt + '.fits'), overwrite=True)
+    finish(os.path.join(d, filt + '.fits'), gz)
 
 
 def read_convolved(path):
@@ -103,6 +119,7 @@ def read_convolved(path):
 def write_sed_file(path, name, wav, nu, apertures, flux, err, wav_unit='um', nu_unit='Hz', ap_unit='AU',
                    flux_unit='mJy', err_unit=None, distance_cm=None, dtype='D'):
     """
+    A path ending in .gz is written gzip-compressed.
     SED file per docs: HDU1 WAVELENGTH/FREQUENCY, HDU2 APERTURE, HDU3 TOTAL_FLUX / TOTAL_FLUX_ERR with one row per
     aperture, each cell a vector over the spectral axis.  The spectral axis is stored in the order given.
     """
@@ -131,7 +148,10 @@ def write_sed_file(path, name, wav, nu, apertures, flux, err, wav_unit='um', nu_
     hdu3 = fits.BinTableHDU.from_columns([
         fits.Column(name='TOTAL_FLUX', format=fmt, unit=flux_unit, array=flux),
         fits.Column(name='TOTAL_FLUX_ERR', format=fmt, unit=err_unit or flux_unit, array=err)], name='SEDS')
-    fits.HDUList([hdu0, hdu1, hdu2, hdu3]).writeto(path, overwrite=True)
+    gz = path.endswith('.gz')
+    plain = path[:-3] if gz else path
+    fits.HDUList([hdu0, hdu1, hdu2, hdu3]).writeto(plain, overwrite=True)
+    finish(plain, gz)
 
 
 def read_sed_file(path):
